@@ -121,6 +121,7 @@ def work(ctx, tier):
     if ctx.shard == 0:
         hang.cancel_while_unwinding(ctx, rounds=1 if tier == "quick" else 5)
         hang.abort_while_other_calls_hang(ctx)
+        hang.interrupt_while_waiting_for_a_timed_attempt(ctx, rounds=3 if tier == "quick" else 9)
     common.flush_stats(ctx, stats)
 
 
@@ -137,6 +138,7 @@ def conclude(ctx):
         "cancellations_while_a_timed_out_attempt_unwinds": (ctx.cnt["cancellations_while_a_timed_out_attempt_unwinds"], 6),
         "aborts_while_other_calls_hang": (ctx.cnt["aborts_while_other_calls_hang"], 1),
         "hung_operations_of_other_calls": (ctx.cnt["hung_operations_of_other_calls"], 30),
+        "interrupts_while_waiting_for_a_timed_attempt": (ctx.cnt["interrupts_while_waiting_for_a_timed_attempt"], 3),
     }
     return dict(
         rule=(
